@@ -21,7 +21,8 @@
 (* L2: the walk with reported (per file, keyed by package and type) and    *)
 (* the skip of @testonly declarations and of _test.go files.               *)
 (* L1: Exact.  Deviations: DedupByName (reported keyed by the bare type    *)
-(* name), MatchByName (calls matched by identifier text).                  *)
+(* name), MatchByName (calls matched by identifier text), NoUnalias (a use *)
+(* spelled through a type alias is invisible).                             *)
 (***************************************************************************)
 EXTENDS Integers, Sequences, FiniteSets, TLC, Json
 
@@ -38,7 +39,9 @@ TypeUses == {"litTT", "varTT", "varPtrTT", "fieldTT", "paramTT", "resultTT", "li
 
 Anns == [type : BOOLEAN, func : BOOLEAN, meth : BOOLEAN]
 
-Cont(x, u) == [ctx |-> x, use |-> u]
+Cont(x, u) == [ctx |-> x, use |-> u, sp |-> "direct"]
+ContS(x, u, sp) == [ctx |-> x, use |-> u, sp |-> sp]
+Spells == {"direct", "alias", "alias3", "ptralias", "rename", "paren"}
 
 Valid(c, pkg) ==
   /\ (c.use = "fieldTT" <=> c.ctx = "decl")
@@ -84,6 +87,13 @@ InitProg ==
      /\ \E ann \in Anns, pkg \in {"d", "u"}, t \in BOOLEAN, x \in Ctxs, u \in Uses :
           /\ Valid(Cont(x, u), pkg)
           /\ prog = [ann |-> ann, pkg |-> pkg, files |-> <<[test |-> t, conts |-> <<Cont(x, u)>>]>>]
+  \/ /\ Mode = "spell"     \* C13: every type use under every spelling of the type
+     /\ \E ann \in {a \in Anns : a.type}, pkg \in {"d", "u"}, x \in Ctxs, u \in TypeUses \ {"litTT2", "litOTT"}, sp \in Spells :
+          /\ Valid(Cont(x, u), pkg)
+          /\ (sp \in {"alias3", "rename"} => pkg = "u")
+          /\ (sp = "ptralias" => u \in {"varPtrTT", "resultTT"})
+          /\ (sp = "paren" => u \notin {"litTT"})
+          /\ prog = [ann |-> ann, pkg |-> pkg, files |-> <<[test |-> FALSE, conts |-> <<ContS(x, u, sp)>>]>>]
   \/ /\ Mode = "seq2"
      /\ \E pkg \in {"d", "u"}, ann \in {a \in Anns : a.type} : \E c1 \in SeqConts(pkg), c2 \in SeqConts(pkg) :
           \/ prog = [ann |-> ann, pkg |-> pkg, files |-> <<[test |-> FALSE, conts |-> <<c1, c2>>]>>]
@@ -123,7 +133,9 @@ Key(u) == IF "DedupByName" \in Deviations THEN TypeOf(u)[2] ELSE TypeOf(u)
 Visit ==
   /\ ph = "visit"
   /\ LET c == CurC
-         code == IF c.use = "shadow" /\ "MatchByName" \in Deviations /\ prog.ann.func THEN "TONL02" ELSE Cand(c, prog.ann)
+         code == IF c.use = "shadow" /\ "MatchByName" \in Deviations /\ prog.ann.func THEN "TONL02"
+                 ELSE IF "NoUnalias" \in Deviations /\ c.sp \in {"alias", "alias3", "ptralias"} THEN "none"
+                 ELSE Cand(c, prog.ann)
      IN IF skip \/ code = "none" THEN UNCHANGED <<reported, diags>>
         ELSE IF code = "TONL01"
           THEN IF Key(c.use) \in reported THEN UNCHANGED <<reported, diags>>
